@@ -24,7 +24,10 @@ type session struct {
 	cnt     map[[2]int]int
 	last    atomic.Int64
 	nDelays atomic.Int64
-	marks   map[string]bool
+	// number of parties inside a deliberate start/gap sleep of the schedule:
+	// no hook event is expected from them, so silence is not a hang
+	sleeping atomic.Int64
+	marks    map[string]bool
 }
 
 // mark records a harness-side milestone (not part of the trace) that gates may wait for.
@@ -365,7 +368,10 @@ func runOnce(cs caseSpec, port int) (*caseResult, bool) {
 	}
 	sleepUs := func(us int) {
 		if us > 0 {
+			s.sleeping.Add(1)
 			time.Sleep(time.Duration(us) * time.Microsecond)
+			s.last.Store(time.Now().UnixNano())
+			s.sleeping.Add(-1)
 		}
 	}
 	switch cs.Mode {
@@ -420,7 +426,7 @@ func runOnce(cs caseSpec, port int) (*caseResult, bool) {
 			returned[d.id] = d
 			s.last.Store(time.Now().UnixNano())
 		case now := <-tick.C:
-			if now.Sub(time.Unix(0, s.last.Load())) > quiet {
+			if s.sleeping.Load() == 0 && now.Sub(time.Unix(0, s.last.Load())) > quiet {
 				hang = fmt.Sprintf("no progress for %v", quiet)
 			} else if now.After(deadline) {
 				hang = fmt.Sprintf("deadline %d ms", cs.DeadMs)
